@@ -347,6 +347,33 @@ impl Property for C02 {
         }
         out
     }
+    /// libFuzzer input: layout bits, target, anchor / alias percentages, decoration script, then
+    /// one tree (three out of four inputs) or a stream of 2-3 trees
+    fn fuzz_decode(data: &[u8]) -> Option<(&'static str, Case, bool)> {
+        let mut b = engine::Bytes::new(data);
+        let lb = b.u16() as u32;
+        let stream = b.below(4) == 0;
+        let (a, al, ub) = b.pick(&[(20u16, 20u16, 10u16), (35, 30, 10), (15, 10, 0), (30, 0, 0), (25, 25, 40), (30, 25, 30)]);
+        let c = if stream {
+            let target = b.pick(&[Target::Untyped, Target::Json]);
+            let n = 2 + b.below(2);
+            let docs = (0..n)
+                .map(|_| {
+                    let script = gdoc::script_from_bytes(&mut b, 12);
+                    let t = gdoc::tree_from_bytes(&mut b, 3);
+                    gdoc::decorate(&t, &script, a, al, ub)
+                })
+                .collect();
+            Case { docs, layout: Layout { doc_end: false, ..Layout::from_bits(lb) }, target }
+        } else {
+            let target = b.pick(&TARGETS);
+            let script = gdoc::script_from_bytes(&mut b, 24);
+            let t = gdoc::tree_from_bytes(&mut b, 4);
+            Case { docs: vec![gdoc::decorate(&t, &script, a, al, ub)], layout: Layout::from_bits(lb), target }
+        };
+        let nt = nontrivial(&c);
+        Some((if stream { "fuzz-streams" } else { "fuzz-decorated" }, c, nt))
+    }
     fn generate(ctx: &mut Ctx<Self>) {
         // exhaustive small trees
         let n = ctx.tier.pick(5, 6);
